@@ -246,6 +246,18 @@ theorem own_result_read {g : Graph} (hwf : graphWF g = true) (hN : namesInjB g =
   rw [List.find?_append, hnone]
   simp
 
+/-- … and the step in which an execution of a test proper reports outcome `st` files, on the copy it ran on,
+a result with this execution's uid, the reported duration and the reported status (a PASS may be downgraded
+to WARN by the duration rule) — the result read is the worker's own. -/
+theorem own_result_filed {g : Graph} (hwf : graphWF g = true) (hN : namesInjB g = true) (hP : preFreshB g = true)
+    {ncls : Nat} {store : List (String × List (String × String))} {s : State} (hr : ReachableR g ncls store s)
+    (w n : Nat) (dir : Dir) (uid : String) (tag : Nat) (hpc : (s.wd w).pc = .test n .plain dir uid tag 0)
+    (hg : good g n = true) (out : Outcome) (st : String) (hst : out.status = some st) (fuel : Nat) (hf : 0 < fuel) :
+    ∃ res ∈ ((resume g s w out fuel).1.nd n).results, res.uid = uid ∧ res.dur = out.dur ∧
+      (res.status = st ∨ (st = "PASS" ∧ res.status = "WARN")) :=
+  resume_files_own_result hwf (hr.basic hwf) (hr.uids hwf (namesInjB_sound hN) (preFreshB_sound hP))
+    w n dir uid tag hpc hg out st hst fuel hf
+
 end identifiers
 
 section budget
